@@ -720,7 +720,9 @@ def run_op(op, idx):
         from xdoctest import __main__ as xmain
         argv = ['xdoctest'] + [abspath_of(a[5:]) if a.startswith('PATH:') else a for a in op['argv']]
         rc = xmain.main(argv)
-        return {'rc': rc}
+        # what the operating system would report for sys.exit(rc)
+        status = 0 if rc is None else (rc & 0xFF) if isinstance(rc, int) else 1
+        return {'rc': status, 'returned': rc if isinstance(rc, (int, type(None))) else repr(rc)}
     if kind == 'import_by_path':
         from xdoctest import utils
         mod = utils.import_module_from_path(abspath_of(op['module']), index=op.get('index', -1))
